@@ -99,6 +99,9 @@ Definition move_fits (g : game) (m : move) : bool :=
    else true) &&
   (if mdp m then negb ((if w then t + 8 else t - 8) =? NOSQ) else true).
 
+(* C02: the move does not capture a king (true of every generated move when the side not to move is not in check) *)
+Definition nkc_b (g : game) (m : move) : bool :=
+  negb (mcap m && negb (mep m) && N.testbit (bb g (if white g then BK else WK)) (mto m)).
 Local Close Scope N_scope.
 
 (* the formal reading of "legal position" for a bitboard position: consistent redundant sets + the rules-level wf *)
